@@ -77,7 +77,13 @@ func (dst *Buffer[D]) Append(src *Buffer[D]) {
 	// source length is read once: src may be dst itself.
 	length := src.Len()
 	if dst.Cap() < offset+length {
-		dst.data = append(dst.data, make([]D, length)...)
+		// grow by whole frames, so the capacity can always be aligned
+		// even when the last frame is partly filled.
+		grow := length
+		if c := dst.Channels(); c > 0 && (offset+length)%c != 0 {
+			grow += c - (offset+length)%c
+		}
+		dst.data = append(dst.data, make([]D, grow)...)[:offset+length]
 	} else {
 		dst.data = dst.data[:offset+length]
 	}
